@@ -1,10 +1,11 @@
 use crate::engine::Property;
 
 pub mod c03;
+pub mod c04;
 pub mod c05;
 
 pub fn all() -> Vec<Box<dyn Property>> {
-    vec![Box::new(c03::C03), Box::new(c05::C05)]
+    vec![Box::new(c03::C03), Box::new(c04::C04), Box::new(c05::C05)]
 }
 
 pub fn by_id(id: &str) -> Option<Box<dyn Property>> {
